@@ -1,9 +1,438 @@
-(* Properties/C02.v — placeholder until Model/Lmf.v and its round-trip theorems are assembled. *)
-From Coq Require Import ZArith List.
+(* Properties/C02.v — WN-LMF load/dump is a lossless round trip (models: Model/XmlText.v = the serialisers of CPython that wn.lmf.dump uses
+   (ElementTree _escape_attrib/_escape_cdata, xml.sax.saxutils.quoteattr) and what an XML parser makes of their output
+   (xml_attr_value, xml_char_data: reference decoding, attribute-value and end-of-line normalisation per the XML
+   recommendation); Model/Lmf.v = wn.lmf dump and load).  [expat_view] turns the element tree dump builds into the tree expat
+   reports for its serialisation; nf_K are the normal forms of the loader's dictionaries (image of load after dump).
+   Statements only: every theorem is closed by `exact` of a lemma proved under Proofs/, followed by
+   Print Assumptions.  (Statement texts were printed by Coq from the proved lemmas by harness/mkprops.py and are
+   fixed from then on.) *)
+From Coq Require Import String.
+From Coq Require Import ZArith List Bool.
 Import ListNotations.
-Require Import WnV.Base.Sx WnV.Model.Val.
-Definition Sz_str : str := [105; 100]%Z.
-Example C02_val_wire_roundtrip :
-  val_of_sx (sx_of_val (VDict [(Sz_str, VList [VInt 3%Z; VNone; VBool true])])) = VDict [(Sz_str, VList [VInt 3%Z; VNone; VBool true])].
-Proof. vm_compute. reflexivity. Qed.
-Print Assumptions C02_val_wire_roundtrip.
+Require Import WnV.Base.Sx WnV.Gen.LmfTables WnV.Model.Val WnV.Model.XmlText WnV.Model.Lmf.
+Require Import WnV.Proofs.XmlTextProofs WnV.Proofs.LmfProofs.
+Require Import WnV.Proofs.LmfRoundTrip.
+Local Open Scope Z_scope.
+
+(* ---- strings: every attribute value and every text survives serialisation and parsing, character for character (all code points, including quotes, <, &, tabs, newlines, CR) *)
+Theorem C02_attr_roundtrip_ET_all :
+  forall s : str, xml_attr_value (escape_attrib s) = s.
+Proof. exact (@attr_roundtrip_ET_all). Qed.
+Print Assumptions C02_attr_roundtrip_ET_all.
+
+Theorem C02_attr_roundtrip_quoteattr_all :
+  forall s : str,
+         exists inner : str,
+           unquote (quoteattr s) = Some inner /\ zin c_lt inner = false /\ xml_attr_value inner = s.
+Proof. exact (@attr_roundtrip_quoteattr_all). Qed.
+Print Assumptions C02_attr_roundtrip_quoteattr_all.
+
+Theorem C02_escape_attrib_wellformed :
+  forall s : str, zin c_quot (escape_attrib s) = false /\ zin c_lt (escape_attrib s) = false.
+Proof. exact (@escape_attrib_wellformed). Qed.
+Print Assumptions C02_escape_attrib_wellformed.
+
+Theorem C02_text_roundtrip_exact :
+  forall s : str, zin c_cr s = false -> xml_char_data (escape_cdata s) = s.
+Proof. exact (@text_roundtrip_exact). Qed.
+Print Assumptions C02_text_roundtrip_exact.
+
+Theorem C02_text_roundtrip_eol :
+  forall s : str, xml_char_data (escape_cdata s) = normalize_eol s.
+Proof. exact (@text_roundtrip_eol). Qed.
+Print Assumptions C02_text_roundtrip_eol.
+
+Theorem C02_text_roundtrip_all :
+  forall s : str, norm_ws (xml_char_data (escape_cdata s)) = norm_ws s.
+Proof. exact (@text_roundtrip_all). Qed.
+Print Assumptions C02_text_roundtrip_all.
+
+Theorem C02_text_roundtrip :
+  forall s : str,
+         xml_chars s = true -> norm_ws s = s -> norm_ws (xml_char_data (escape_cdata s)) = s.
+Proof. exact (@text_roundtrip). Qed.
+Print Assumptions C02_text_roundtrip.
+
+Theorem C02_escape_cdata_wellformed :
+  forall s : str, zin c_lt (escape_cdata s) = false.
+Proof. exact (@escape_cdata_wellformed). Qed.
+Print Assumptions C02_escape_cdata_wellformed.
+
+Theorem C02_norm_ws_idempotent :
+  forall s : str, norm_ws (norm_ws s) = norm_ws s.
+Proof. exact (@norm_ws_idempotent). Qed.
+Print Assumptions C02_norm_ws_idempotent.
+
+Theorem C02_norm_ws_normalize_eol :
+  forall s : str, norm_ws (normalize_eol s) = norm_ws s.
+Proof. exact (@norm_ws_normalize_eol). Qed.
+Print Assumptions C02_norm_ws_normalize_eol.
+
+(* ---- the header dump writes is the header load accepts, for the version asked for *)
+Theorem C02_dump_header_accepted :
+  forall (version : str) (resource : val) (text : str),
+         dump version resource = Ok text ->
+         exists line1 line2 rest : list Z,
+           text = line1 ++ [c_nl] ++ line2 ++ [c_nl] ++ rest /\
+           read_header (line1 ++ [c_nl]) (line2 ++ [c_nl]) = Ok version.
+Proof. exact (@dump_header_accepted). Qed.
+Print Assumptions C02_dump_header_accepted.
+
+Theorem C02_supported_iff :
+  forall v : str,
+         (exists l1 l2 : str, read_header l1 l2 = Ok v) <-> str_mem v supported_versions = true.
+Proof. exact (@supported_iff). Qed.
+Print Assumptions C02_supported_iff.
+
+(* ---- the round trip, element kind by element kind: for a dictionary d in the normal form of its kind, the element dump builds for it is parsed and validated back into exactly d (exact equality incl. key order), at every indentation level; [iview]/[expat_view] = what expat reports for the serialised element *)
+Theorem C02_tag_roundtrip :
+  forall (version : str) (d : val) (x : xml),
+         supported version = true ->
+         nf_tag d = true ->
+         _build_tag d = Ok x ->
+         (do p <- parse_elem version (expat_view version x); validate_tag p) = Ok d.
+Proof. exact (@tag_roundtrip). Qed.
+Print Assumptions C02_tag_roundtrip.
+
+Theorem C02_pron_roundtrip :
+  forall (version : str) (d : val) (x : xml),
+         v11 version = true ->
+         nf_pron d = true ->
+         _build_pronunciation d = Ok x ->
+         (do p <- parse_elem version (expat_view version x); validate_pron p) = Ok d.
+Proof. exact (@pron_roundtrip). Qed.
+Print Assumptions C02_pron_roundtrip.
+
+Theorem C02_dep_roundtrip :
+  forall (version deptype : str) (d : val) (x : xml),
+         v11 version = true ->
+         is_dep_tag deptype = true ->
+         nf_dep d = true ->
+         dep_xml d deptype = Ok x -> parse_elem version (expat_view version x) = Ok d.
+Proof. exact (@dep_roundtrip). Qed.
+Print Assumptions C02_dep_roundtrip.
+
+Theorem C02_sb10_roundtrip :
+  forall (version : str) (v : list Z) (d : val) (x : xml),
+         supported version = true ->
+         ge_1_1 v = false ->
+         nf_sb10 d = true ->
+         _build_syntactic_behaviour d v = Ok x ->
+         (do p <- parse_elem version (expat_view version x); _validate_frame p) = Ok d.
+Proof. exact (@sb10_roundtrip). Qed.
+Print Assumptions C02_sb10_roundtrip.
+
+Theorem C02_sb11_roundtrip :
+  forall (version : str) (v : list Z) (d : val) (x : xml),
+         supported version = true ->
+         ge_1_1 v = true ->
+         nf_sb11 d = true ->
+         _build_syntactic_behaviour d v = Ok x ->
+         (do p <- parse_elem version (expat_view version x); _validate_frame p) = Ok d.
+Proof. exact (@sb11_roundtrip). Qed.
+Print Assumptions C02_sb11_roundtrip.
+
+Theorem C02_example_roundtrip :
+  forall (version : str) (d : val) (x : xml),
+         supported version = true ->
+         nf_example d = true ->
+         _build_example d = Ok x ->
+         (do p <- parse_elem version (expat_view version x); validate_text_meta p) = Ok d.
+Proof. exact (@example_roundtrip). Qed.
+Print Assumptions C02_example_roundtrip.
+
+Theorem C02_definition_roundtrip :
+  forall (version : str) (d : val) (x : xml),
+         supported version = true ->
+         nf_definition d = true ->
+         _build_definition d = Ok x ->
+         (do p <- parse_elem version (expat_view version x); validate_text_meta p) = Ok d.
+Proof. exact (@definition_roundtrip). Qed.
+Print Assumptions C02_definition_roundtrip.
+
+Theorem C02_ilidef_roundtrip :
+  forall (version : str) (d : val) (x : xml),
+         supported version = true ->
+         nf_ilidef d = true ->
+         _build_ili_definition d = Ok x -> parse_elem version (expat_view version x) = Ok d.
+Proof. exact (@ilidef_roundtrip). Qed.
+Print Assumptions C02_ilidef_roundtrip.
+
+Theorem C02_relation_roundtrip :
+  forall (version elemtype : str) (d : val) (x : xml),
+         supported version = true ->
+         is_rel_tag elemtype = true ->
+         nf_relation d = true ->
+         _build_relation d elemtype = Ok x ->
+         (do p <- parse_elem version (expat_view version x); validate_relation p) = Ok d.
+Proof. exact (@relation_roundtrip). Qed.
+Print Assumptions C02_relation_roundtrip.
+
+Theorem C02_count_roundtrip :
+  forall (version : str) (d : val) (x : xml),
+         supported version = true ->
+         nf_count d = true ->
+         _build_count d = Ok x ->
+         (do p <- parse_elem version (expat_view version x); validate_count p) = Ok d.
+Proof. exact (@count_roundtrip). Qed.
+Print Assumptions C02_count_roundtrip.
+
+Theorem C02_lemma_roundtrip :
+  forall (version : str) (v : list Z) (level : nat) (ext : bool) (d : val) (x : xml),
+         supported version = true ->
+         ge_1_1 v = v11 version ->
+         nf_lemma (v11 version) d = true ->
+         _build_lemma d v = Ok x ->
+         (do p <- parse_elem version (iview version level x); _validate_form ext p) = Ok d.
+Proof. exact (@lemma_roundtrip). Qed.
+Print Assumptions C02_lemma_roundtrip.
+
+Theorem C02_xlemma_roundtrip :
+  forall (version : str) (v : list Z) (level : nat) (d : val) (x : xml),
+         v11 version = true ->
+         ge_1_1 v = true ->
+         nf_xlemma d = true ->
+         _build_lemma d v = Ok x ->
+         (do p <- parse_elem version (iview version level x); _validate_form true p) = Ok d.
+Proof. exact (@xlemma_roundtrip). Qed.
+Print Assumptions C02_xlemma_roundtrip.
+
+Theorem C02_form_roundtrip :
+  forall (version : str) (v : list Z) (level : nat) (ext : bool) (d : val) (x : xml),
+         supported version = true ->
+         ge_1_1 v = v11 version ->
+         nf_form (v11 version) d = true ->
+         _build_form d v = Ok x ->
+         (do p <- parse_elem version (iview version level x); _validate_form ext p) = Ok d.
+Proof. exact (@form_roundtrip). Qed.
+Print Assumptions C02_form_roundtrip.
+
+Theorem C02_xform_roundtrip :
+  forall (version : str) (v : list Z) (level : nat) (d : val) (x : xml),
+         v11 version = true ->
+         ge_1_1 v = true ->
+         nf_xform d = true ->
+         _build_form d v = Ok x ->
+         (do p <- parse_elem version (iview version level x); _validate_form true p) = Ok d.
+Proof. exact (@xform_roundtrip). Qed.
+Print Assumptions C02_xform_roundtrip.
+
+Theorem C02_sense_roundtrip :
+  forall (version : str) (v : list Z) (level : nat) (ext : bool) (d : val) (x : xml),
+         supported version = true ->
+         ge_1_1 v = v11 version ->
+         nf_sense (v11 version) d = true ->
+         _build_sense d v = Ok x ->
+         (do p <- parse_elem version (iview version level x); _validate_sense ext p) = Ok d.
+Proof. exact (@sense_roundtrip). Qed.
+Print Assumptions C02_sense_roundtrip.
+
+Theorem C02_xsense_roundtrip :
+  forall (version : str) (v : list Z) (level : nat) (d : val) (x : xml),
+         supported version = true ->
+         nf_xsense d = true ->
+         _build_sense d v = Ok x ->
+         (do p <- parse_elem version (iview version level x); _validate_sense true p) = Ok d.
+Proof. exact (@xsense_roundtrip). Qed.
+Print Assumptions C02_xsense_roundtrip.
+
+Theorem C02_synset_roundtrip :
+  forall (version : str) (v : list Z) (level : nat) (ext : bool) (d : val) (x : xml),
+         supported version = true ->
+         ge_1_1 v = v11 version ->
+         nf_synset (v11 version) d = true ->
+         synset_xml d v = Ok x ->
+         (do p <- parse_elem version (iview version level x); _validate_synset ext p) = Ok d.
+Proof. exact (@synset_roundtrip). Qed.
+Print Assumptions C02_synset_roundtrip.
+
+Theorem C02_xsynset_roundtrip :
+  forall (version : str) (v : list Z) (level : nat) (d : val) (x : xml),
+         supported version = true ->
+         nf_xsynset d = true ->
+         synset_xml d v = Ok x ->
+         (do p <- parse_elem version (iview version level x); _validate_synset true p) = Ok d.
+Proof. exact (@xsynset_roundtrip). Qed.
+Print Assumptions C02_xsynset_roundtrip.
+
+Theorem C02_entry_roundtrip :
+  forall (version : str) (v : list Z) (level : nat) (ext : bool) (d : val) (x : xml),
+         supported version = true ->
+         ge_1_1 v = v11 version ->
+         nf_entry (v11 version) d = true ->
+         entry_xml d v = Ok x ->
+         (do p <- parse_elem version (iview version level x); _validate_entry ext p) = Ok d.
+Proof. exact (@entry_roundtrip). Qed.
+Print Assumptions C02_entry_roundtrip.
+
+Theorem C02_xentry_roundtrip :
+  forall (version : str) (v : list Z) (level : nat) (d : val) (x : xml),
+         v11 version = true ->
+         ge_1_1 v = true ->
+         nf_xentry d = true ->
+         entry_xml d v = Ok x ->
+         (do p <- parse_elem version (iview version level x); _validate_entry true p) = Ok d.
+Proof. exact (@xentry_roundtrip). Qed.
+Print Assumptions C02_xentry_roundtrip.
+
+Theorem C02_lexicon_roundtrip :
+  forall (version : str) (v : list Z) (T : str) (d : val),
+         supported version = true ->
+         ge_1_1 v = v11 version ->
+         nf_lexicon (v11 version) d = true ->
+         exists x : xml,
+           lexicon_xml d v = Ok x /\
+           (xtag x = str_of_string "Lexicon" \/
+            xtag x = str_of_string "LexiconExtension" /\ v11 version = true) /\
+           (do p <- parse_elem version (lexicon_view version T x); _validate p) = Ok d.
+Proof. exact (@lexicon_roundtrip). Qed.
+Print Assumptions C02_lexicon_roundtrip.
+
+(* ---- whole documents: load (dump R) = R for every resource R in normal form, in every supported version; the dumped file is exactly header ++ root tag ++ the lexicon texts ++ end tag, and dump is total on normal forms *)
+Theorem C02_document_roundtrip :
+  forall (version : str) (v : list Z) (T : str) (r : val),
+         supported version = true ->
+         version_info version = Ok v ->
+         nf_resource version r = true ->
+         exists xs : list xml,
+           mapM (fun l : val => lexicon_xml l v) (vlist r k_lexicons) = Ok xs /\
+           load_tree version (doc_view version T xs) = Ok r.
+Proof. exact (@document_roundtrip). Qed.
+Print Assumptions C02_document_roundtrip.
+
+Theorem C02_dump_load_roundtrip :
+  forall (version : str) (r : val) (text T : str),
+         nf_resource version r = true ->
+         dump version r = Ok text ->
+         exists (line1 line2 rest v : list Z) (xs : list xml),
+           text = line1 ++ [c_nl] ++ line2 ++ [c_nl] ++ rest /\
+           version_info version = Ok v /\
+           mapM (fun l : val => lexicon_xml l v) (vlist r k_lexicons) = Ok xs /\
+           load (line1 ++ [c_nl]) (line2 ++ [c_nl]) (doc_view version T xs) = Ok r.
+Proof. exact (@dump_load_roundtrip). Qed.
+Print Assumptions C02_dump_load_roundtrip.
+
+Theorem C02_dump_lexicon_xml :
+  forall (lexicon : val) (v : list Z) (text : str),
+         _dump_lexicon lexicon v = Ok text ->
+         exists x : xml, lexicon_xml lexicon v = Ok x /\ lexicon_text x = Ok text.
+Proof. exact (@dump_lexicon_xml). Qed.
+Print Assumptions C02_dump_lexicon_xml.
+
+Theorem C02_dump_text :
+  forall (version : str) (r : val) (text : str),
+         dump version r = Ok text ->
+         exists (v dc_uri : list Z) (schema : str) (lexs : val) (xs : list xml)
+         (texts : list str),
+           supported version = true /\
+           assoc version schemas = Some schema /\
+           version_info version = Ok v /\
+           py_item r (str_of_string "lexicons") = Ok lexs /\
+           (exists l : list val,
+              py_iter lexs = Ok l /\ mapM (fun d : val => lexicon_xml d v) l = Ok xs) /\
+           mapM lexicon_text xs = Ok texts /\
+           text =
+           xmldecl ++
+           [c_nl] ++
+           doctype_of schema ++
+           [c_nl] ++
+           str_of_string "<LexicalResource xmlns:dc=""" ++
+           dc_uri ++
+           [c_quot; c_gt; c_nl] ++ concat texts ++ str_of_string "</LexicalResource>" ++ [c_nl].
+Proof. exact (@dump_text). Qed.
+Print Assumptions C02_dump_text.
+
+Theorem C02_dump_load_roundtrip_text :
+  forall (version : str) (r : val) (text T : str),
+         nf_resource version r = true ->
+         dump version r = Ok text ->
+         exists (v dc_uri : list Z) (schema : str) (xs : list xml) (texts : list str),
+           version_info version = Ok v /\
+           mapM (fun d : val => lexicon_xml d v) (vlist r k_lexicons) = Ok xs /\
+           mapM lexicon_text xs = Ok texts /\
+           text =
+           (xmldecl ++ [c_nl]) ++
+           (doctype_of schema ++ [c_nl]) ++
+           str_of_string "<LexicalResource xmlns:dc=""" ++
+           dc_uri ++
+           [c_quot; c_gt; c_nl] ++ concat texts ++ str_of_string "</LexicalResource>" ++ [c_nl] /\
+           load (xmldecl ++ [c_nl]) (doctype_of schema ++ [c_nl]) (doc_view version T xs) = Ok r.
+Proof. exact (@dump_load_roundtrip_text). Qed.
+Print Assumptions C02_dump_load_roundtrip_text.
+
+(* ---- metadata and integers *)
+Theorem C02_meta_dict_nf :
+  forall m : val, nf_meta m = true -> _meta_dict m = Ok (md_of m).
+Proof. exact (@meta_dict_nf). Qed.
+Print Assumptions C02_meta_dict_nf.
+
+Theorem C02_parse_int_dec :
+  forall n : Z, parse_int (dec_of_Z n) = Some n.
+Proof. exact (@parse_int_dec). Qed.
+Print Assumptions C02_parse_int_dec.
+
+(* ---- non-vacuity: each normal form is inhabited (and props/C02.py evaluates nf_resource, through Proofs/LmfNfRun.v, on the resources the real load returns for files the real dump wrote, on every run) *)
+Theorem C02_nf_lexicon_ex :
+  nf_lexicon true
+           (mk_lexicon (str_of_string "ewn") (str_of_string "English WordNet")
+              (str_of_string "en") (str_of_string "a@b.c") (str_of_string "CC-BY")
+              (str_of_string "2020") (Some (str_of_string "http://x")) None None
+              (VDict [(str_of_string "publisher", VStr (str_of_string "GWA"))]) None
+              [mk_dep (str_of_string "omw") (str_of_string "1") None]
+              [mk_entry (str_of_string "w1") VNone
+                 (mk_lemma (str_of_string "colour") None (str_of_string "n") [] []) []
+                 [mk_sense (str_of_string "w1-s1") (str_of_string "ss1") true None [] VNone [] [] []]
+                 []]
+              [mk_synset (str_of_string "ss1") (str_of_string "i1") (Some (str_of_string "n")) true
+                 [str_of_string "w1-s1"] None VNone [] None [] []]
+              [mk_sb11 (str_of_string "NP V") (Some (str_of_string "f1"))]) = true.
+Proof. exact (@nf_lexicon_ex). Qed.
+Print Assumptions C02_nf_lexicon_ex.
+
+Theorem C02_nf_entry_ex :
+  nf_entry true
+           (mk_entry (str_of_string "w1") VNone
+              (mk_lemma (str_of_string "colour") None (str_of_string "n") [] [])
+              [mk_form None (str_of_string "colours") None [] []]
+              [mk_sense (str_of_string "w1-s1") (str_of_string "ss1") true None [] VNone [] [] []] []) =
+         true.
+Proof. exact (@nf_entry_ex). Qed.
+Print Assumptions C02_nf_entry_ex.
+
+Theorem C02_nf_xentry_ex :
+  nf_xentry
+           (mk_xentry (str_of_string "w1")
+              (Some (mk_xlemma [] [mk_tag (str_of_string "c") (str_of_string "t")]))
+              [mk_xform (str_of_string "f1") [] [];
+               mk_form (Some (str_of_string "f2")) (str_of_string "new") None [] []]
+              [mk_xsense (str_of_string "w1-s1") [] [] []]) = true.
+Proof. exact (@nf_xentry_ex). Qed.
+Print Assumptions C02_nf_xentry_ex.
+
+Theorem C02_nf_synset_ex :
+  nf_synset true
+           (mk_synset (str_of_string "ss1") (str_of_string "i123") (Some (str_of_string "n")) true
+              [str_of_string "w1-s1"] None VNone
+              [mk_definition None None VNone (str_of_string "a thing")]
+              (Some (mk_ilidef VNone (str_of_string "thing")))
+              [mk_relation (str_of_string "ss2") (str_of_string "hypernym") VNone] []) = true.
+Proof. exact (@nf_synset_ex). Qed.
+Print Assumptions C02_nf_synset_ex.
+
+Theorem C02_nf_sense_ex :
+  nf_sense true
+           (mk_sense (str_of_string "w1-s1") (str_of_string "ss1") false
+              (Some (str_of_string "a")) [str_of_string "f1"; str_of_string "f2"] VNone
+              [mk_relation (str_of_string "w2-s1") (str_of_string "antonym") VNone] []
+              [mk_count VNone 3]) = true.
+Proof. exact (@nf_sense_ex). Qed.
+Print Assumptions C02_nf_sense_ex.
+
+Theorem C02_nf_meta_ex :
+  nf_meta
+           (VDict
+              [(str_of_string "creator", VStr (str_of_string "me"));
+               (str_of_string "note", VStr (str_of_string "n")); (conf_key, VStr [])]) = true.
+Proof. exact (@nf_meta_ex). Qed.
+Print Assumptions C02_nf_meta_ex.
+
